@@ -81,6 +81,7 @@ def run_task(task: dict) -> dict:
         "error": None,
         "samples": [],
         "functions_called": [],
+        "proved_names": [],
     }
 
     def bump(d, k, n=1):
@@ -176,6 +177,7 @@ def run_task(task: dict) -> dict:
                     res["samples"].append({"obligation": ob.name, "clause": ob.tag, "goal": E.to_str(ob.goal, 5)[:300],
                                            "hyps": len(ob.hyps), "backend": ob.backend})
                 if ob.status == "proved":
+                    res["proved_names"].append(ob.name)
                     continue
                 rec = {"name": ob.name, "kind": ob.kind, "tag": ob.tag, "status": ob.status, "backend": ob.backend,
                        "site": ob.site, "detail": ob.detail[-1500:], "model": _jsonable(ob.model),
